@@ -40,6 +40,11 @@ Theorem C20_owned : forall inbound T C,
   end.
 Proof. exact reply_owned_spec. Qed.
 
+Theorem C20_owned_publication : forall inbound T C t c user,
+  reply_owned inbound T C = OwnOk t c ->
+  reply_with inbound user = Some (owned_publication t c user).
+Proof. exact owned_publication_is_reply. Qed.
+
 (* non-vacuity: correlation data BEFORE the response topic, among other properties *)
 Example C20_nonvacuous :
   let ps := [mkprop KCorrelationData 0 [1; 2] []; mkprop KUserProperty 0 [107] [118]; mkprop KResponseTopic 0 [114; 47; 116] []] in
@@ -54,3 +59,4 @@ Print Assumptions C20_targets.
 Print Assumptions C20_reply.
 Print Assumptions C20_reply_on_the_wire.
 Print Assumptions C20_owned.
+Print Assumptions C20_owned_publication.
